@@ -468,6 +468,8 @@ SMTP_GRID = [
     ('size-big', smtp_cfg(size=1000000)),
     ('size-small', smtp_cfg(size=600)),
     ('starttls', smtp_cfg(tls=True)),
+    ('tls-immediately', smtp_cfg(tls='immediate')),
+    ('tls-immediately-auth-reuse', smtp_cfg(tls='immediate', auth=['PLAIN', 'LOGIN'], reuse=True)),
     ('starttls-auth-plain', smtp_cfg(tls=True, auth=['PLAIN'])),
     ('starttls-auth-login', smtp_cfg(tls=True, auth=['LOGIN'], mech='LOGIN')),
     ('auth-cram', smtp_cfg(auth=['CRAM-MD5'])),
@@ -499,6 +501,9 @@ HTTP_GRID = [
     ('http-reuse', {'reuse': True, 'https': False, 'concurrent': False}),
     ('http-reuse-concurrent', {'reuse': True, 'https': False, 'concurrent': True}),
     ('https', {'reuse': False, 'https': True, 'concurrent': False}),
+    # the edge built and started through its documented listener= argument instead of build_server()
+    ('http-listener', {'reuse': False, 'https': False, 'concurrent': False, 'listener': True}),
+    ('https-listener', {'reuse': True, 'https': True, 'concurrent': False, 'listener': True}),
 ]
 GRID_ADDRS = [
     # (sender, recipients) -- one per address class, hand-written and valid
@@ -639,7 +644,8 @@ def all_cases(tier, seed):
                 label, cfg = rnd.choice(SMTP_GRID)
             else:
                 cfg = smtp_cfg(drop=sorted(x for x in DEFAULT_EXTS if rnd.random() < 0.3),
-                               size=rnd.choice([None, None, 600, 5000, 1000000]), tls=rnd.random() < 0.25,
+                               size=rnd.choice([None, None, 600, 5000, 1000000]),
+                               tls=rnd.choice([False, False, False, False, False, True, True, 'immediate']),
                                helo=rnd.random() < 0.08, reuse=rnd.random() < 0.3)
                 # PLAIN/LOGIN are refused 504 by the library's server on a clear channel (by design); a relay
                 # with credentials cannot use a server that offers no AUTH (HELO): neither is a hop failure
@@ -810,6 +816,7 @@ class SmtpLab(Lab):
             kw['max_size'] = cfg['size']
         if cfg['tls']:
             kw['context'] = server_ctx()
+            kw['tls_immediately'] = cfg['tls'] == 'immediate'
         if cfg['auth']:
             kw['auth'] = [a.encode('ascii') for a in cfg['auth']]     # pysasl wants bytes names
         self.edge = SmtpEdge(None, self.capq, validator_class=make_validator_class(self), hostname='edge.test',
@@ -818,6 +825,8 @@ class SmtpLab(Lab):
               'data_timeout': 15, 'binary_encoder': encoder_of(cfg['encoder'])}
         if cfg['reuse']:
             rk['idle_timeout'] = 5.0
+        if cfg['tls'] == 'immediate':
+            rk['tls_immediately'] = True
         if cfg['auth']:
             rk['credentials'] = (USER, SECRET)
             if cfg['mech']:
@@ -842,7 +851,7 @@ class SmtpLab(Lab):
             base['SIZE'] = str(cfg['size'])
         if cfg['auth']:
             base['AUTH'] = ' '.join(cfg['auth'])
-        if cfg['tls']:
+        if cfg['tls'] and cfg['tls'] != 'immediate':
             first = dict(base)
             first['STARTTLS'] = None
             return [first, base]
@@ -943,7 +952,19 @@ class HttpLab(Lab):
     def __init__(self, cfg):
         Lab.__init__(self, cfg)
         self.capq = CaptureQueue(self)
-        self.edge, self.server, port = http_server(cfg['https'])
+        self.own = None
+        if cfg.get('listener'):
+            self.own = WsgiEdge(self.capq, hostname='edge.test', listener=('127.0.0.1', 0),
+                                context=server_ctx() if cfg['https'] else None)
+            self.edge, self.server = self.own, self.own.server
+            self.own.start()
+            for _ in range(200):
+                if getattr(self.server, 'started', False):
+                    break
+                gevent.sleep(0.005)
+            port = self.server.server_port
+        else:
+            self.edge, self.server, port = http_server(cfg['https'])
         self.edge.queue = self.capq
         url = '%s://127.0.0.1:%d/deliver' % ('https' if cfg['https'] else 'http', port)
         self.relay = HttpRelay(url, pool_size=1, context=client_ctx() if cfg['https'] else None,
@@ -954,6 +975,13 @@ class HttpLab(Lab):
             self.relay.kill()
         except Exception:
             pass
+        if self.own is not None:
+            try:
+                self.server.stop(timeout=1)
+            except Exception:
+                pass
+            self.own.kill(block=False) if hasattr(self.own, 'dead') and not self.own.dead else None
+            return
         self.edge.queue = None
 
 
@@ -1010,7 +1038,7 @@ def ext_key(transport, cfg):
                 cfg['helo'], cfg['reuse'], cfg['concurrent'], cfg['encoder'])
     if transport == 'lmtp':
         return ('lmtp', tuple(cfg['exts']), cfg['pipelining'], cfg['tls'], cfg['auth'], cfg['reuse'])
-    return ('http', cfg['reuse'], cfg['https'], cfg['concurrent'])
+    return ('http', cfg['reuse'], cfg['https'], cfg['concurrent'], bool(cfg.get('listener')))
 
 
 def default_cfg(transport, cfg):
@@ -1596,7 +1624,19 @@ def run_case(case, R):
         for k, v in smtp_cfg().items():
             cfg.setdefault(k, v)
     case = dict(case, cfg=cfg)
-    lab = {'smtp': SmtpLab, 'lmtp': LmtpLab, 'http': HttpLab}[t](cfg)
+    try:
+        lab = {'smtp': SmtpLab, 'lmtp': LmtpLab, 'http': HttpLab}[t](cfg)
+    except Exception as e:
+        if t == 'http' and cfg.get('listener'):
+            R.eval()
+            R.hit('http-edge-setup-judged')
+            R.violation('http/edge-setup/listener-%s-tls-context-raises-%s'
+                        % ('with' if cfg['https'] else 'without', type(e).__name__),
+                        'http: WsgiEdge(queue, listener=..., context=%s) cannot be constructed: %s: %s'
+                        % ('ctx' if cfg['https'] else 'None', type(e).__name__, e),
+                        {'config': case['label'], 'cfg': cfg, 'traceback': traceback.format_exc(limit=4)[-600:]})
+            return
+        raise
     try:
         runs = run_messages(case, lab, R)
         gevent.sleep(0)
